@@ -111,9 +111,18 @@ class CliGen:
 
     def rawdg(self):
         r = self.rng
-        k = r.randrange(5)
+        k = r.randrange(8)
         hdr = bytes([0x10, 0xd1, 0x9e])
-        if k == 0:
+        if k >= 5:
+            # a well-formed data frame (0x5A: the harness' compression stand-in), then (k==6) the bare header cut at every length,
+            # or (k==7) the frame cut short: what the previous datagram left in the receive buffer must not matter
+            fr = hdr + bytes([0x20 | self.uid, 0x5A]) + bytes(r.randrange(256) for _ in range(r.choice([20, 60, 300])))
+            self.events.append('D %d %s' % (self.now, fr.hex()))
+            self.stats['rawdg'] += 1
+            if k == 5:
+                return
+            dg = hdr[:r.randrange(1, 4)] if k == 6 else fr[:len(fr) - r.randrange(1, 6)]
+        elif k == 0:
             dg = hdr + bytes([0x20 | self.uid]) + bytes([0x5A]) + bytes(r.randrange(256) for _ in range(r.randrange(1, 200)))
         elif k == 1:
             dg = hdr + bytes([0x30 | self.uid])
